@@ -435,7 +435,6 @@ func ruleE3s(c *Ctx) {
 	c.ok("E3s", "functions scanned", "", fmt.Sprintf("%d in-place slice writes on shared objects", n))
 }
 
-
 // freshObject: allocated by this function and not a by-value copy of something passed in (a
 // shallow struct copy shares the backing arrays of its slice fields with the original).
 func freshObject(root ssa.Value) bool {
